@@ -278,9 +278,10 @@ def cloneB (t : HTree) (c1 c2 : Nat) : HTree × HTree := ({ t with cow := c1 }, 
 
 /-! ### reading the store back -/
 
-/-- the layer-A node a store cell denotes (fuel = height) -/
+/-- the layer-A node a store cell denotes (fuel = height; below the fuel, children are shown as empty nodes, so that
+    a cell with children is never mistaken for a leaf) -/
 def absNode (H : Heap) : Nat → Nat → Node
-  | 0, id => .mk (H.get id).items []
+  | 0, id => .mk (H.get id).items ((H.get id).children.map (fun _ => Node.mk [] []))
   | fuel + 1, id => .mk (H.get id).items ((H.get id).children.map (absNode H fuel))
 
 def HTree.inorder (t : HTree) (H : Heap) : List Item :=
